@@ -451,7 +451,20 @@ func runDoc(b *tv.Batch, cs docCase) {
 	b.Start(tv.M{"len": len(pt), "S": segSize, "tag": tagSize, "cipher": cs.Cipher, "alg": cs.Alg, "keyName": cs.KeyName,
 		"decKeyName": cs.DecKeyName, "omit": cs.Omit, "producer": cs.Producer, "pair": cs.Pair, "src": cs.Src, "cbuf": cs.CBuf, "file": cs.File, "hmax": segSize})
 	defer r.Ev("end", nil)
-	wrapFn, unwrapFn := pair(cs.Pair)
+	var vault *encref.Vault
+	var wrapFn encref.WrapFn
+	var unwrapFn encref.UnwrapFn
+	if cs.Pair == "caching" {
+		vault = encref.NewVault()
+		wrapFn, unwrapFn = vault.Wrap, vault.Unwrap
+	} else {
+		wrapFn, unwrapFn = pair(cs.Pair)
+	}
+	keycheck := func(after string) {
+		if vault != nil {
+			r.Ev("keycheck", tv.M{"intact": vault.Intact(), "after": after})
+		}
+	}
 	var fk, wfk []byte
 	var doc []byte
 	switch cs.Producer {
@@ -503,6 +516,8 @@ func runDoc(b *tv.Batch, cs docCase) {
 			}
 		}
 		doc = buf.Bytes()
+		time.Sleep(100 * time.Microsecond) // let the encrypting goroutine finish
+		keycheck("encrypt")
 	case "ref":
 		fk = plaintext(32, cs.Seed+1000)
 		np := plaintext(7, cs.Seed+2000)
@@ -588,6 +603,7 @@ func runDoc(b *tv.Batch, cs docCase) {
 				m["poisonOnly"] = term2 == "eof" && eq2
 			}
 			r.Ev("dec", m)
+			keycheck("decrypt")
 		}
 	}
 }
@@ -827,6 +843,27 @@ func docCases(thorough bool, rng *rand.Rand) []docCase {
 			}
 		}
 	}
+	// caching key provider: the unwrap callback returns the same retained slice on every call; every document is
+	// decrypted several times (and once unsuccessfully: no key name) through it
+	for _, l := range []int{0, 5, segSize + 1, 2 * segSize} {
+		for ci := 0; ci < 2; ci++ {
+			for _, omit := range []bool{false, true} {
+				ovr := ""
+				if omit {
+					ovr = "ovr-key"
+				}
+				ds := []decCase{{By: "real", Src: "bytes.Reader", CBuf: 4096, Override: ovr}, {By: "ref", Override: ovr}, {By: "real", Src: "b-1+0+1", CBuf: segSize, Override: ovr}}
+				if omit {
+					ds = append(ds, decCase{By: "real", Src: "whole", CBuf: 512, Override: ""}) // fails: no key name anywhere
+				}
+				ds = append(ds, decCase{By: "real", Src: "dataerr-half", CBuf: 1000, Override: ovr}, decCase{By: "real", Src: "whole", CBuf: 700, Override: ovr, Mode: "two-streams"},
+					decCase{By: "real", Src: "rnd", CBuf: 1 << 20, Override: ovr, Mode: "slow-unwrap"}, decCase{By: "ref", Override: ovr}, decCase{By: "real", Src: "zeros", CBuf: 16 * 1024, Override: ovr})
+				out = append(out, docCase{Producer: "real", Len: l, Cipher: allCiphers[ci], Alg: allAlgs[i%len(allAlgs)], KeyName: "enc-key", DecKeyName: []string{"", "dec-key"}[i%2], Omit: omit,
+					Pair: "caching", Src: srcStyles[i%len(srcStyles)], CBuf: 4096, Seed: seed + int64(i), Decs: ds})
+				i++
+			}
+		}
+	}
 	// key-name length across the maximum header size
 	out = append(out, hdrBoundaryCases(thorough, seed+int64(i))...)
 	i = len(out)
@@ -1026,7 +1063,7 @@ func TestCheck(t *testing.T) {
 		for _, d := range []string{"MC_framing_defect_swallow.cfg", "MC_framing_defect_nocarry.cfg", "MC_framing_defect_eager-last.cfg"} {
 			defect("EncFraming", d)
 		}
-		for _, d := range []string{"MC_format_defect_alias.cfg", "MC_format_defect_omit.cfg", "MC_format_defect_hdr-off-by-one.cfg", "MC_format_defect_hdr-none.cfg"} {
+		for _, d := range []string{"MC_format_defect_alias.cfg", "MC_format_defect_omit.cfg", "MC_format_defect_hdr-off-by-one.cfg", "MC_format_defect_hdr-none.cfg", "MC_format_defect_wipes-key.cfg"} {
 			defect("EncV1Format", d)
 		}
 		for _, d := range []string{"MC_position_fmt_defect_wrap24.cfg", "MC_position_fmt_defect_last-overlaps.cfg"} {
@@ -1105,7 +1142,7 @@ func TestCheck(t *testing.T) {
 	e.Set("transitions", mcFraming.Generated+mcFormat.Generated+mcPosition.Generated)
 	e.Set("checker_cmd", mcFraming.Cmd+" ; "+mcFormat.Cmd)
 	e.Set("model_checks", tv.M{"EncFraming": tv.M{"distinct": mcFraming.Distinct, "generated": mcFraming.Generated, "depth": mcFraming.Depth},
-		"EncV1Format": tv.M{"distinct": mcFormat.Distinct, "generated": mcFormat.Generated}, "EncPosition": tv.M{"distinct": mcPosition.Distinct}, "defect_configs_rejected": 9})
+		"EncV1Format": tv.M{"distinct": mcFormat.Distinct, "generated": mcFormat.Generated}, "EncPosition": tv.M{"distinct": mcPosition.Distinct}, "defect_configs_rejected": 10})
 
 	// 4. TLC judges the recorded executions
 	frej, ftr, fl, _, ferr := fb.validate("TraceEncFraming", ev.Pick(6*time.Minute, 40*time.Minute))
@@ -1187,6 +1224,14 @@ func TestCheck(t *testing.T) {
 				evs = evs[:600] + "..."
 			}
 			what += " [" + evs + "]"
+		}
+		if strings.HasPrefix(r.Why, "caller's retained key") {
+			after := "decrypt"
+			if r.At < len(r.Trace) && strings.Contains(r.Trace[r.At], `"after":"encrypt"`) {
+				after = "encrypt"
+			}
+			key = "roundtrip:caching-unwrap:key-modified-after-" + after
+			what = fmt.Sprintf("the key bytes retained by the caller's caching key provider were modified by %s (document len=%d cipher=%q alg=%s): later unwraps hand out the damaged key", after, cs.Len, cs.Cipher, cs.Alg)
 		}
 		if kl := len(cs.KeyName) + len(cs.DecKeyName); kl > 1000 {
 			// header-size boundary case
